@@ -73,10 +73,10 @@ func genRange(t *rapid.T, size, es, align, maxCount int) (off, count int) {
 		}
 		return off, cnt
 	}
-	switch rapid.IntRange(0, 5).Draw(t, "range-class") {
+	switch rapid.IntRange(0, 6).Draw(t, "range-class") {
 	case 0: // the whole buffer
 		return fit(0, size)
-	case 1: // around a page or line boundary
+	case 1, 6: // around a page or line boundary
 		unit := rapid.SampledFrom([]int{pageSize, pageSize, lineSize}).Draw(t, "boundary-unit")
 		if size > unit {
 			b := unit * rapid.IntRange(1, (size-1)/unit).Draw(t, "boundary")
@@ -134,7 +134,7 @@ func genCase(t *rapid.T) Case {
 		if n >= 2 && rapid.IntRange(0, 2).Draw(t, "distribute") == 0 {
 			b.Dist = genGPUList(t, n, 2, "dist")
 		}
-		if rapid.IntRange(0, 7).Draw(t, "unified-memory") == 0 {
+		if rapid.IntRange(0, 11).Draw(t, "unified-memory") == 0 {
 			// "unified" memory: pages on GPU 1 that the MMU may migrate on demand
 			b.Dev, b.Dist = -1, nil
 		}
@@ -170,6 +170,7 @@ func genCase(t *rapid.T) Case {
 		kernels = false
 	}
 	epochs := rapid.IntRange(1, 3).Draw(t, "epochs")
+	alive := seq(0, nb-1) // the buffers copies may address (the scratch buffer is not among them)
 	for e := 0; e < epochs; e++ {
 		// one queue per epoch, or every buffer bound to one queue for this epoch
 		// (operations on different queues then touch disjoint buffers)
@@ -199,14 +200,14 @@ func genCase(t *rapid.T) Case {
 		for k := 0; k < nops; k++ {
 			var s Step
 			kinds := []string{"h2d", "h2d", "h2d", "d2h", "d2h", "d2h"}
-			if kernels {
+			if kernels && len(kbufs) > 0 {
 				kinds = append(kinds, "kernel", "kernel")
 			}
 			s.Kind = rapid.SampledFrom(kinds).Draw(t, "kind")
 			if s.Kind == "kernel" {
 				s.Buf = rapid.SampledFrom(kbufs).Draw(t, "buf")
 			} else {
-				s.Buf = rapid.IntRange(0, nb-1).Draw(t, "buf")
+				s.Buf = rapid.SampledFrom(alive).Draw(t, "buf")
 			}
 			s.Q = q0
 			if multi {
@@ -243,6 +244,37 @@ func genCase(t *rapid.T) Case {
 		}
 		if e < epochs-1 {
 			c.Steps = append(c.Steps, Step{Kind: "run"})
+			// one or two buffers allocated only now (after kernels may have run)
+			if len(c.Bufs) < 5 && rapid.IntRange(0, 3).Draw(t, "alloc") == 0 {
+				for k := rapid.IntRange(1, min(2, 5-len(c.Bufs))).Draw(t, "alloc-count"); k > 0; k-- {
+					b := Buf{Size: genSize(t), Dev: rapid.SampledFrom(devs).Draw(t, "buffer-device")}
+					c.Bufs = append(c.Bufs, b)
+					i := len(c.Bufs) - 1
+					c.Steps = append(c.Steps, Step{Kind: "alloc", Buf: i})
+					alive = append(alive, i)
+					if kernels && b.Size >= 4 {
+						kbufs = append(kbufs, i)
+					}
+				}
+			}
+			// FreeMemory of one or two buffers (never all): takes effect at once, so
+			// only at a run point; the freed buffers are not addressed afterwards
+			if len(alive) > 1 && rapid.IntRange(0, 3).Draw(t, "free") == 0 {
+				k := rapid.IntRange(1, min(2, len(alive)-1)).Draw(t, "free-count")
+				for ; k > 0; k-- {
+					i := rapid.IntRange(0, len(alive)-1).Draw(t, "free-buf")
+					b := alive[i]
+					alive = append(alive[:i:i], alive[i+1:]...)
+					c.Steps = append(c.Steps, Step{Kind: "free", Buf: b})
+					var kb []int
+					for _, x := range kbufs {
+						if x != b {
+							kb = append(kb, x)
+						}
+					}
+					kbufs = kb
+				}
+			}
 		}
 	}
 	return c
